@@ -56,3 +56,31 @@ func TestKnownC01AbsentListComesBackEmpty(t *testing.T) {
 		t.Fatalf("round trip differs: %#v != %#v (serialized form %#v)", again, u, ser)
 	}
 }
+
+type knownC01PtrDefault struct {
+	Mode *string `json:"mode"`
+}
+
+// TestKnownC01EmptyPointerComesBackNil: an "empty means default" property mapped to an optional (pointer) field. An
+// explicit empty value unserializes to a pointer to the empty value; Serialize leaves the property out because it is
+// empty; unserializing that yields a nil pointer - not equal to the first value.
+func TestKnownC01EmptyPointerComesBackNil(t *testing.T) {
+	s := NewStructMappedObjectSchema[knownC01PtrDefault]("PtrDefault", map[string]*PropertySchema{
+		"mode": NewPropertySchema(NewStringSchema(nil, nil, nil), nil, false, nil, nil, nil, nil, nil).TreatEmptyAsDefaultValue(),
+	})
+	u, err := s.Unserialize(map[string]any{"mode": ""})
+	if err != nil {
+		t.Skipf("input rejected: %v", err)
+	}
+	ser, err := s.Serialize(u)
+	if err != nil {
+		t.Fatalf("Serialize of an unserialized value failed: %v", err)
+	}
+	again, err := s.Unserialize(ser)
+	if err != nil {
+		t.Fatalf("Unserialize of the serialized form failed: %v", err)
+	}
+	if !reflect.DeepEqual(u, again) {
+		t.Fatalf("round trip differs: %#v != %#v (serialized form %#v)", u, again, ser)
+	}
+}
